@@ -24,7 +24,14 @@ import (
 	"strings"
 )
 
-const repoRoot = "/repo"
+// repoRoot: the repository under test.  Always /repo for the registered checks; an experiment may point the
+// harness at a scratch copy (run.sh with VERIF_ALT_REPO builds it with a matching -modfile).
+var repoRoot = func() string {
+	if d := os.Getenv("VERIF_ALT_REPO"); d != "" {
+		return d
+	}
+	return "/repo"
+}()
 const repoModule = "go.pennock.tech/tabular"
 const vrtPath = repoModule + "/zverif/vrt"
 
@@ -697,6 +704,9 @@ func buildOverlayBinary(work string, race bool) (exe string, info *OverlayInfo, 
 		if race {
 			args = append(args, "-race")
 		}
+		if mf := os.Getenv("VERIF_ALT_MODFILE"); mf != "" {
+			args = append(args, "-modfile", mf)
+		}
 		args = append(args, ".")
 		cmd := exec.Command("go", args...)
 		cmd.Dir = filepath.Join(verifRoot, "mc")
@@ -724,7 +734,7 @@ func buildOverlayBinary(work string, race bool) (exe string, info *OverlayInfo, 
 func init() {
 	// prebuild warms the build cache for the overlay and -race variants (setup_cmd)
 	extraCommands["prebuild"] = func(args []string) {
-		work := filepath.Join(verifRoot, ".work", fmt.Sprintf("prebuild-%d", os.Getpid()))
+		work := filepath.Join(outRoot(), ".work", fmt.Sprintf("prebuild-%d", os.Getpid()))
 		defer os.RemoveAll(work)
 		os.MkdirAll(work, 0o755)
 		for _, race := range []bool{false, true} {
